@@ -120,6 +120,31 @@ func cmdRun(args []string) int {
 		tl := time.Now()
 		p, err := gosym.Load(cfg)
 		if err != nil {
+			// white-box lemma files name unexported identifiers; when they stop compiling against a changed tree the
+			// property is decided by the black-box harnesses alone
+			dropped := false
+			for k := range cfg.Overlay {
+				if strings.HasSuffix(k, "_whitebox.go") {
+					delete(cfg.Overlay, k)
+					dropped = true
+				}
+			}
+			if dropped {
+				if p2, err2 := gosym.Load(cfg); err2 == nil {
+					fmt.Printf("NOTE property=%s white-box lemma file(s) skipped: they no longer compile against this tree (%s)\n", *prop, firstLine(strings.TrimPrefix(err.Error(), "load errors:\n")))
+					ev.Problems = append(ev.Problems, "white-box lemma files skipped (do not compile against this tree)")
+					var kept []string
+					for _, f := range files {
+						if !strings.HasSuffix(f, "_whitebox.go") {
+							kept = append(kept, f)
+						}
+					}
+					files = kept
+					p, err = p2, nil
+				}
+			}
+		}
+		if err != nil {
 			fmt.Fprintf(os.Stderr, "vcheck: cannot load %s with harness overlay: %v\n", hd, err)
 			ev.Problems = append(ev.Problems, "load: "+err.Error())
 			exit = 2
@@ -520,3 +545,4 @@ func cmdSelftest(args []string) int {
 
 // tests the baseline itself lists as flaky / always failing
 var flaky = map[string]bool{"TestNewBufferedChannelQueue": true, "TestLinkedListQueue": true, "TestWorkerJamDuration": true}
+
